@@ -5,6 +5,12 @@ V = "/verif"
 props = [json.loads(l) for l in open(V + "/properties.jsonl")]
 
 CLAIMED = {
+ "C18": dict(
+    text="Exhaustiveness/ORDER/ERRFLOW/TABLE rules over misc/create_inode.c and debugfs/dump.c: the population switch has an arm for each of the seven host file types reaching that kind's creator; after every creator every path to the next directory entry passes set_inode_extra and set_inode_xattr with this entry's lstat buffer; "
+         "set_inode_extra stores uid and gid (both halves, >>16), mode (type from the created inode, permission mask containing 07777) and the three timestamps, each from the same-named stat field, and writes the inode back; multiply-linked non-directories are looked up by (st_dev, st_ino) and the first member is recorded on every continuing path; "
+         "the chunk copier seeks to the source offset before writing, treats a failed/zero-progress write and a failed read as errors, close and chunk-copy errors are returned, the recorded size is st_size; on extraction regular files, symlinks and directories each have an arm, the dump loop writes exactly the bytes read, mode/owner/times are restored from the inode; "
+         "no zero-extended 32-bit ~mask on a 64-bit file offset in either direction. Decides the wiring for every tree shape; does NOT decide byte equality of a copy, hole placement arithmetic, or inline-data corner cases (defects observed there are value-level and outside this technique).",
+    ref="§8.6 C18", technique="static analysis: switch-label exhaustiveness, must-pass-through to the loop head, field-pairing table over stores, path-sensitive error-flow, operand-width facts"),
  "C19": dict(
     text="Exhaustiveness/GUARD/PURITY rules over misc/e2image.c and lib/ext2fs/qcow2.c: every block-location accessor of the group descriptor (enumerated from blknum.c), the primary superblock, its descriptor blocks and the MMP block are marked over all groups, "
          "silently skipped for nothing but UNINIT flags / zero location / absent feature; per in-use inode the xattr block; all blocks of directories, symlinks, journal, every quota type (count taken from enum quota_type) and the orphan file; "
@@ -119,7 +125,6 @@ NA_REASON = {
  "C07": "geometry arithmetic and option-compatibility logic over a combinatorial configuration space: numerical, no clause visible in the shape of the code; mke2fs -n is decided under C13, backup writing under C20",
  "C10": "history-dependent data-structure behaviour (leaf split, rec_len coalescing, hash order, hash values): runtime quantities; dir-block checksum wiring is decided under C14",
  "C15": "round-trip of a sorted in-memory array through three storage placements; placement, order and hash values are runtime quantities; xattr block checksum wiring is decided under C14",
- "C18": "equality of two directory trees over all tree shapes; copy loops and metadata transfer are value-level",
 }
 
 checks = []
